@@ -359,6 +359,8 @@ def gen_tree_case(rng, p_reserved=0.06, p_dotted=0.03, p_stop=0.2):
             case['oracle']['c1:%d' % k] = ['error']
         elif r < 0.28:
             case['oracle']['c1:%d' % k] = ['cancel']
+    # a second engine process completing the same child first, just before this one's CAS (see _Race)
+    case['race'] = rng.choice([0, 0, 0, 1, 2, 5])
     if rng.random() < p_stop:
         case['ops'].append({'at': rng.randint(2, 25), 'op': 'stop_child', 'which': rng.randint(0, 3)})
     return case
@@ -495,6 +497,44 @@ def _fast_schema_validation():
     lang_base.jsonschema = _JS()
 
 
+class _Race(object):
+    """Simulates the only interleaving of two engine processes the serial harness cannot produce by
+    reordering deliveries: process B is about to run the compare-and-swap of `Workflow.set_state`
+    (RUNNING -> final) for a CHILD execution when process A, handling the same completion check, commits
+    first.  At B's CAS the whole `wf_handler.check_and_complete` of A runs (nested, same database), then
+    B's CAS executes and must lose.  With a correct guard exactly one result message is registered."""
+
+    def __init__(self, n):
+        from mistral.db.v2 import api as db_api
+        self.db_api = db_api
+        self.armed = n
+        self.depth = 0
+        self.fired = 0
+        self.orig = db_api.update_workflow_execution_state
+
+    def __enter__(self):
+        if self.armed:
+            self.db_api.update_workflow_execution_state = self._cas
+        return self
+
+    def __exit__(self, *a):
+        self.db_api.update_workflow_execution_state = self.orig
+
+    def _cas(self, id, cur_state, state):
+        from mistral.engine import workflow_handler as wf_handler
+        if self.armed and self.depth == 0 and cur_state == 'RUNNING' and state in FINAL:
+            wf_ex = self.db_api.load_workflow_execution(id)
+            if wf_ex is not None and wf_ex.task_execution_id:
+                self.armed -= 1
+                self.depth = 1
+                self.fired += 1
+                try:
+                    wf_handler.check_and_complete(id)
+                finally:
+                    self.depth = 0
+        return self.orig(id=id, cur_state=cur_state, state=state)
+
+
 def start_in_ns(world, name, ns, wf_input, params):
     world.log.append(['start_workflow', name, ns, wf_input, params])
     r = world._call('start_workflow', world.engine.start_workflow, name, ns, None, dict(wf_input), '', **params)
@@ -561,6 +601,7 @@ def run_tree(case):
             w.op('stop_workflow', x['id'], 'CANCELLED', 'stopped by harness')
 
         scan()
+        race = _Race(case.get('race', 0)).__enter__()
         while step < 800:
             while oi < len(ops) and ops[oi]['at'] <= step:
                 do_op(ops[oi])
@@ -591,6 +632,7 @@ def run_tree(case):
             w.deliver(it, oracle=oracle, duplicate=dup)
             scan()
             step += 1
+        race.__exit__()
         final = w.snapshot()
         results = {}
         extras = {}
@@ -602,9 +644,13 @@ def run_tree(case):
                 extras[w.id_ord[x.id]] = {'wf_ns': x.workflow_namespace}
         out.update({'final': final, 'results': results, 'sent': sent, 'stopped': stopped, 'root_id': root,
                     'errors': [{k: e.get(k) for k in ('where', 'declared', 'type', 'msg')} for e in w.errors],
-                    'dups': 3 - dup_budget, 'steps': step, 'exhausted': exhausted, 'extras': extras})
+                    'dups': 3 - dup_budget, 'steps': step, 'exhausted': exhausted, 'extras': extras,
+                    'races': race.fired})
         return out
     finally:
+        from mistral.db.v2 import api as _db
+        if getattr(_db.update_workflow_execution_state, '__self__', None) is not None:
+            _db.update_workflow_execution_state = _db.update_workflow_execution_state.__self__.orig
         cfg.CONF.clear_override('start_subworkflows_via_rpc', group='engine')
         if case.get('skip_validation'):
             cfg.CONF.clear_override('validation_mode', group='api')
@@ -693,6 +739,11 @@ def monitor(case, run):
         if x['state'] == 'SUCCESS' and isinstance(x['output'], dict) and 'e' in x['output']:
             if x['output']['e'] != root_env.get('k'):
                 hits.append(('env', {'wf': x['name'], 'saw': x['output']['e'], 'root_env': root_env, 'level': T.level[x['ord']]}))
+        # "the sub-workflow's output": a SUCCESS leaf has the output its definition prescribes
+        if x['state'] == 'SUCCESS' and T.level[x['ord']] == case['depth'] - 1:
+            out = x['output'] if isinstance(x['output'], dict) else {}
+            if norm(out.get('o', '<missing>')) != norm((x['input'] or {}).get('x')) or 'who' not in out:
+                hits.append(('child-output', {'wf': x['name'], 'output': x['output'], 'input': x['input']}))
         # "input not declared by the child definition is passed on as execution parameters"
         lvl = T.level[x['ord']] - 1
         item = T.item_of(lvl, x)
@@ -934,6 +985,8 @@ def features(case, run):
         f.add('dup-result-msg')
     if run['stopped']:
         f.add('stop-child')
+    if run.get('races'):
+        f.add('cas-race')
     return f
 
 
